@@ -49,7 +49,9 @@ def wq : Spec :=
 def cache : Spec :=
   { counters := [("panics", "C08.no_panic"), ("badget", "C08.get_was_set"), ("viewbad", "C08.views_consistent_at_quiescence"),
                  ("swbad", "C08.single_writer_last_value_or_absent"), ("missing", "C08.nothing_missing_within_capacity"),
-                 ("sweeperleft", "C08.cancel_ends_sweeper"), ("hang", "C08.no_deadlock")],
+                 ("sweeperleft", "C08.cancel_ends_sweeper"), ("hang", "C08.no_deadlock"),
+                 -- keys re-inserted right after their eviction (the background sweep may still be finishing) are present at rest
+                 ("renewmissing", "C03.reinsert_renews")],
     crashClause := "C08.no_panic",
     raceClause := fun _ => "C08.no_data_race" }
 
